@@ -763,8 +763,87 @@ func execServerFailWindow(queued int) string {
 	return res
 }
 
+// execServerShutWait: "server shutwait <M> <waiters>": M acknowledged calls fill the server; <waiters> more callers arrive
+// one after the other (the first waits for a free slot, the others wait behind it); then Shutdown.  Every call must
+// complete exactly once in bounded time — the waiting ones refused —, and Shutdown must return.
+func execServerShutWait(M, waiters int) string {
+	srv := server.New([]server.Method{{
+		Method: srvMethod,
+		Impl: func(ctx context.Context, call *server.Call) error {
+			call.Ack()
+			<-ctx.Done()
+			return nil
+		},
+	}}, nil, nil, &server.Policy{MaxConcurrentCalls: M})
+	recv := func(ret capnp.Returner) capnp.Recv {
+		_, seg, _ := capnp.NewMessage(capnp.SingleSegment(nil))
+		args, _ := capnp.NewStruct(seg, capnp.ObjectSize{DataSize: 8})
+		return capnp.Recv{Method: srvMethod, Args: args, ReleaseArgs: func() {}, Returner: ret}
+	}
+	var running, waiting []*gateReturner
+	for i := 0; i < M; i++ {
+		g := newGateReturner(nil)
+		running = append(running, g)
+		ok := make(chan struct{})
+		go func() { srv.Recv(context.Background(), recv(g)); close(ok) }()
+		select {
+		case <-ok:
+		case <-time.After(3 * time.Second):
+			return "call-not-started"
+		}
+	}
+	for i := 0; i < waiters; i++ {
+		g := newGateReturner(nil)
+		waiting = append(waiting, g)
+		go srv.Recv(context.Background(), recv(g))
+		time.Sleep(15 * time.Millisecond)
+	}
+	shut := make(chan struct{})
+	go func() { srv.Shutdown(); close(shut) }()
+	res := ""
+	note := func(s string) {
+		if res == "" {
+			res = s
+		}
+	}
+	check := func(gs []*gateReturner, what string, refused bool) {
+		for i, g := range gs {
+			select {
+			case <-g.done:
+			case <-time.After(3 * time.Second):
+				note(what + "-" + strconv.Itoa(i) + "-never-completes")
+				continue
+			}
+			if n := atomic.LoadInt32(&g.returns); n != 1 {
+				note(what + "-returned-" + strconv.Itoa(int(n)) + "-times")
+			}
+			if refused && g.err == nil {
+				note(what + "-ran-after-shutdown")
+			}
+		}
+	}
+	check(running, "running-call", false)
+	check(waiting, "waiting-call", true)
+	select {
+	case <-shut:
+	case <-time.After(3 * time.Second):
+		note("shutdown-never-returns")
+	}
+	if res == "" {
+		return "ok"
+	}
+	return res
+}
+
 func execServer(f []string) string {
 	switch f[0] {
+	case "shutwait":
+		if len(f) != 3 {
+			return "bad-op"
+		}
+		m, _ := strconv.Atoi(f[1])
+		w, _ := strconv.Atoi(f[2])
+		return execServerShutWait(m, w)
 	case "failwindow":
 		if len(f) != 2 {
 			return "bad-op"
@@ -795,6 +874,7 @@ func genC12(rec *lib.Rec, r *lib.Rng, thorough bool) {
 	if Shard == 0 {
 		for q := 0; q <= 3; q++ {
 			rec.Op("S", "server failwindow "+strconv.Itoa(q), true)
+			rec.Op("S", "server shutwait "+strconv.Itoa(1+r.Intn(3))+" "+strconv.Itoa(1+r.Intn(4)), true)
 		}
 	}
 	n := 240
